@@ -286,8 +286,23 @@ impl Expr {
 
                 let rhs = rhs.for_type(flags)?;
 
-                lhs.get_output_type(&rhs, op, flags)
-                    .with_context(|| format!("invalid operation: {} {} {}", lhs, op.symbol(), rhs))
+                let output = lhs
+                    .get_output_type(&rhs, op, flags)
+                    .with_context(|| format!("invalid operation: {} {} {}", lhs, op.symbol(), rhs))?;
+
+                // `x op= v` stores `x op v` back into x: the result must still have x's type
+                if op.is_op_assign() && !lhs.eq_complex(&output, flags) {
+                    bail!(
+                        "invalid operation: {} {} {} produces {}, which cannot be stored back into a {}",
+                        lhs,
+                        op.symbol(),
+                        rhs,
+                        output,
+                        lhs
+                    )
+                }
+
+                Ok(output)
             }
             Expr::UnaryMinus(val) | Expr::UnaryNot(val) => val.for_type(flags),
             Expr::Callable(CallableContents::Standard { function, .. }) => {
